@@ -107,6 +107,23 @@ def units(tier):
                 check_stored(ctx, u, M0, locs, list(raw), 0xFF if lockable(cls) else M0[2])
         unit(nm + "/write_raw/conforming-unit", r_conforming)
 
+        def r_nofeedback(ctx, interp, fn, cls=cls, locs=locs, n=n):
+            """ignore_feedback=True waives the CHECKING of the unit's answers, nothing else: against a conforming unit
+            the write still returns, stores exactly the data, and leaves a lockable bank locked again"""
+            u = MemoryUnit(ctx, cls.bank, variants=False, holes=False)
+            ctx.assume(And([u.accessible(l) for l in locs]))
+            ctx.assume(Not(u.protected))
+            M0 = list(u.M)
+            raw = sym_raw(ctx, n)
+            h = Harness(ctx, interp, u)
+            out = h.run(WRITE_RAW, cls, sym_addr(ctx, A.GearShort, "d"), raw, ignore_feedback=True)
+            ctx.cover()
+            ctx.prove("conforming-unit-write-succeeds", out[0] == "return", detail="outcome %r" % (out[:2],))
+            if out[0] == "return":
+                check_stored(ctx, u, M0, locs, list(raw), 0xFF if lockable(cls) else M0[2])
+            ctx.prove("only-memory-commands", len(u.unexpected) == 0)
+        unit(nm + "/write_raw/conforming-unit/ignore-feedback", r_nofeedback)
+
         for delta in (-1, 1):
             def r_len(ctx, interp, fn, cls=cls, n=n, delta=delta):
                 u = MemoryUnit(ctx, cls.bank)
@@ -167,7 +184,8 @@ META = {
                "faults": "one silence (= NO) or framing error on any answer (values up to 8 bytes)"},
     "assumptions": [
         "ASSUMED unit contract contracts/units/memory.py incl. its variant flags",
-        "ignore_feedback=True is the caller's explicit waiver and is not claimed",
+        "ignore_feedback=True waives the checking of the unit's answers: with it only the conforming unit is claimed "
+        "(the write returns, stores exactly the data, re-locks a lockable bank); failure detection is the caller's waiver",
         "a unit that stores a different byte but echoes the requested one cannot be detected by any controller and is not "
         "among the variants",
     ],
